@@ -840,3 +840,86 @@ def reference_paths(ctx, case):
 
 for _c in ["plain", "reduce", "reduce-orthorhombic", "mic-orthorhombic", "mic-triclinic"]:
     contract("C05", "mdtraj/geometry/distance.py", "_distance|_displacement|_reduce_box_vectors|_distance_mic(opt=False)", cases=[_c], replay="dist", covers=["returned"])(reference_paths)
+
+
+def reference_paths_more(ctx, case):
+    """further NumPy reference functions over the contract of _reduce_box_vectors (case "reduce" above):
+       _displacement_mic on an orthorhombic cell: the returned vector is (x_b - x_a) - n.L with integer n, every component within L/2;
+       _distance_mic_t (time pairs): the separation of atom c in frame t1 and atom d in frame t2 is wrapped with the cell of frame t1;
+            orthorhombic: its length; general cell: not longer than any of the 27 images of the wrapped vector, and the length of one of them."""
+    import numpy as np
+    from mdvc import npreal, polyid
+
+    mod, npobj = _ref_env(ctx)
+    ex = ctx.ex
+    kind, orth = case
+    F, A = (1, 3) if kind == "disp" else (2, 2)
+    X = [[[ctx.real(f"x{f}_{a}_{k}") for k in range(3)] for a in range(A)] for f in range(F)]
+    xyz = npobj.oarr((F, A, 3), lambda f, a, k: X[f][a][k])
+    pairs = np.array([[0, 2], [2, 1]], dtype=np.int32) if kind == "disp" else np.array([[0, 1]], dtype=np.int32)
+    B = [[[ctx.real(f"b{f}_{r}{k}") for k in range(3)] for r in range(3)] for f in range(F)]  # per frame, rows: the cell vectors
+    box_t = npobj.oarr((F, 3, 3), lambda f, r, k: B[f][k][r])  # the caller hands over the transposed cells
+    Rv = [[ctx.real(f"r{r}{k}") for k in range(3)] for r in range(3)]
+    if orth:
+        ctx.assume(*[Rv[r][k] == 0 for r in range(3) for k in range(3) if r != k], *[Rv[k][k] > 0 for k in range(3)])
+    else:
+        ctx.assume(Rv[0][1] == 0, Rv[0][2] == 0, Rv[1][2] == 0, Rv[0][0] > 0, Rv[1][1] > 0, Rv[2][2] > 0)
+    seen = {}
+
+    def reduce_model(vectors):
+        rows = [[vectors[r][k] for k in range(3)] for r in range(3)]
+        seen["frames"] = seen.get("frames", []) + [f for f in range(F) if all(rows[r][k] is B[f][r][k] for r in range(3) for k in range(3))]
+        return tuple(npobj.oarr((3,), lambda k, r=r: Rv[r][k]) for r in range(3))
+    mod.globals["_reduce_box_vectors"] = reduce_model
+    npreal.CANON_SQRT[0] = True
+    try:
+        if kind == "disp":
+            out = ctx.call(mod.globals["_displacement_mic"], xyz, pairs, box_t, orth)
+        else:
+            times = np.array([[0, 1]], dtype=np.int32)
+            out = ctx.call(mod.globals["_distance_mic_t"], xyz, pairs, times, box_t, orth)
+    finally:
+        npreal.CANON_SQRT[0] = False
+    ctx.ensure("no-exception", not out.raised)
+    if out.raised:
+        return
+    ctx.cover("returned")
+    ctx.ensure("the-cell-that-is-reduced-is-the-one-of-" + ("the-frame" if kind == "disp" else "the-FIRST-frame-of-the-time-pair") + "(rows=cell-vectors)", seen.get("frames") == [0])
+    raw = ex.path.ghost.get("round_witness", [])
+    wit = [z3.ToReal(n) for (_t, n) in raw]
+    ctx.ensure("three-roundings-per-pair", len(wit) == 3 * len(pairs))
+    if len(wit) != 3 * len(pairs):
+        return
+    V = [[rterm(Rv[r][k]) for k in range(3)] for r in range(3)]
+    half = z3.RealVal("1/2")
+    WBdiv = ctx.lemma("WBdiv:|n-t|<=1/2,t*B=r,B>0=>|r-n*B|<=B/2", 4, lambda n, t, Bv, r: z3.Implies(
+        z3.And(n - t <= half, t - n <= half, t * Bv == r, Bv > 0), z3.And(r - n * Bv <= Bv / 2, n * Bv - r <= Bv / 2)))
+    norm = lambda vec: npreal.SQRT(polyid.canonical(sum(t * t for t in vec)))
+    for j, (a, b) in enumerate(pairs.tolist()):
+        n3, n2, n1 = wit[3 * j: 3 * j + 3]
+        t3, t2, t1 = (raw[3 * j + q][0] for q in range(3))
+        if kind == "disp":
+            diff = [rterm(X[0][b][k]) - rterm(X[0][a][k]) for k in range(3)]
+        else:
+            diff = [rterm(X[0][a][k]) - rterm(X[1][b][k]) for k in range(3)]  # atom a of frame t1 against atom b of frame t2 (the sign does not matter for a distance)
+        w = [diff[k] - n3 * V[2][k] - n2 * V[1][k] - n1 * V[0][k] for k in range(3)]
+        WBdiv(n3, t3, V[2][2], diff[2])
+        WBdiv(n2, t2, V[1][1], diff[1] - n3 * V[2][1])
+        WBdiv(n1, t1, V[0][0], diff[0] - n3 * V[2][0] - n2 * V[1][0])
+        for k in (2, 1, 0):
+            ctx.ensure(f"pair{j}:wrapped-component[{k}]-within-half-the-diagonal-entry", z3.And(w[k] <= V[k][k] / 2, -w[k] <= V[k][k] / 2))
+        if kind == "disp":
+            for k in range(3):
+                ctx.ensure(f"pair{j}:displacement[{k}]=(x_b-x_a)-n.L(integer-n)", rterm(out.value[0][j][k]) == w[k])
+        elif orth:
+            ctx.ensure(f"pair{j}:distance=|wrapped-separation|", rterm(out.value[0][j]) == norm(w))
+        else:
+            dv = rterm(out.value[0][j])
+            imgs = [[w[k] + x * V[0][k] + y * V[1][k] + z_ * V[2][k] for k in range(3)] for x in (-1, 0, 1) for y in (-1, 0, 1) for z_ in (-1, 0, 1)]
+            norms = [norm(im) for im in imgs]
+            ctx.ensure(f"pair{j}:distance<=the-length-of-every-one-of-the-27-images-of-the-wrapped-vector", z3.And(*[dv <= s for s in norms]))
+            ctx.ensure(f"pair{j}:distance-is-the-length-of-one-of-them", z3.Or(*[dv == s for s in norms]))
+
+
+for _c in [("disp", True), ("t", True), ("t", False)]:
+    contract("C05", "mdtraj/geometry/distance.py", "_displacement_mic|_distance_mic_t(opt=False)", cases=[_c], replay="dist", covers=["returned"])(reference_paths_more)
